@@ -233,6 +233,14 @@ func segsFlat(ss []seg) []byte {
 	return out
 }
 
+func segBytes(ss []seg) int {
+	n := 0
+	for _, s := range ss {
+		n += len(s.b)
+	}
+	return n
+}
+
 func coqSegs(ss []seg) string {
 	xs := make([]string, 0, len(ss))
 	for _, s := range ss {
@@ -492,7 +500,7 @@ func (h *runner) oracleList(m [][]byte, model bool, nTrunc int) {
 	default:
 		res.Dist("list_count>32767")
 	}
-	if model && (len(m) <= 40 || len(itemSegs(m)) <= 40) {
+	if model && segBytes(itemSegs(m)) <= 1200 && len(itemSegs(m)) <= 40 {
 		h.cases.Add(fmt.Sprintf("CWrite %s %s %s %s", coqSegs(itemSegs(canon(m))), vh.Bool(ok), vh.N(uint64(len(w))), vh.N(adler(w))),
 			map[string]any{"kind": "write", "count": len(m), "ok": ok, "len": len(w)})
 	}
@@ -514,8 +522,8 @@ func (h *runner) oracleList(m [][]byte, model bool, nTrunc int) {
 	if ob.tag != tagOk || !itemsEqual(ob.items, cm) || !bytes.Equal(ob.rest, rest) {
 		res.Fail("roundtrip-buf", fmt.Sprintf("%d items written (%d bytes), ReadLengthedBytesSlice -> tag=%d items=%d left=%d %s", len(m), len(w), ob.tag, len(ob.items), len(ob.rest), ob.msg), rp)
 	}
-	small := len(in) <= 1500
-	compress := len(itemSegs(cm)) <= 40
+	small := len(in) <= 1000
+	compress := len(itemSegs(cm)) <= 40 && segBytes(itemSegs(cm)) <= 1000
 	if model && (small || compress) {
 		var segs []seg
 		if small {
@@ -548,7 +556,7 @@ func (h *runner) oracleList(m [][]byte, model bool, nTrunc int) {
 			res.Fail("roundtrip-stream", fmt.Sprintf("%d items written (%d bytes), ReadLengthedSlice chunking=%+v -> tag=%d items=%d unread=%d (want %d) %s", len(m), len(w), ck, so.tag, len(so.items), len(so.rest), len(wantRest), so.msg), rp2)
 		}
 		res.Evaluations++
-		if model && small && len(src) <= 600 {
+		if model && small && len(src) <= 400 && (i < 4 || len(src) <= 120) {
 			h.addStreamCase([]seg{{src, 1}}, ck, so)
 		}
 	}
@@ -609,7 +617,7 @@ func (h *runner) oracleMutated(in []byte, what string, model bool) {
 				replay{Kind: "buf", Input: shortHex(in), Note: what})
 		}
 	}
-	if model && len(in) <= 1500 {
+	if model && len(in) <= 800 {
 		h.addBufCase([]seg{{in, 1}}, ob)
 	}
 	if a := hostileAlloc(in); a > allocGuard {
@@ -631,7 +639,7 @@ func (h *runner) oracleMutated(in []byte, what string, model bool) {
 				replay{Kind: "stream", Input: shortHex(in), Chunking: &ck, Note: what})
 		}
 	}
-	if model && len(in) <= 1500 {
+	if model && len(in) <= 800 {
 		h.addStreamCase([]seg{{in, 1}}, ck, so)
 	}
 }
@@ -924,7 +932,7 @@ func child(o *vh.Opts) {
 	debug.SetGCPercent(50)
 	h := &runner{o: o, r: vh.NewRand(o.Seed), cur: filepath.Join(o.Out, "current_case.json"),
 		res:   vh.NewResult("lists written by WriteLengthedSlice/NewLengthedBytesSlice read back by ReadLengthedBytesSlice (with trailing data) and ReadLengthedSlice (chunked readers, 3 EOF policies); every/200 strict prefixes; bit flips, +-1 and boundary values in length fields, byte flips/drops/dups, raw bytes; frames; EnsureRead. Non-trivial = non-empty list / frame"),
-		cases: &vh.Cases{Import: "From MV Require Import C29.Model.", Type: "case", CheckFn: "check", Shard: 250}}
+		cases: &vh.Cases{Import: "From MV Require Import C29.Model.", Type: "case", CheckFn: "check", Shard: 400}}
 	res := h.res
 
 	if o.Replay != "" {
